@@ -189,25 +189,38 @@ pub fn drive(vectors: &str, out: &str, thorough: bool) {
         let Ok(hits) = r else { continue };
         let (findings, unused) = classify(&src, &hits, off);
         recs.push(json!({"id": format!("c14v{i}s{}", skin.id), "front": if separate_fix { "lib-separate-fix" } else { "lib" }, "layout": layout, "src": src,
-          "skin": skin.id, "findings": findings, "unused": unused}));
+          "skin": skin.id, "findings": findings, "unused": unused, "outside": {"checked": false, "reports": [], "line": 0, "confined": false}}));
       }
       if i % stride == 0 {
         let p = Project::new(&format!("{scratch}/p{i}s{}", skin.id));
         p.config(None);
-        for r in rules_json(if skin.python { "Python" } else if skin.c { "C" } else { "JavaScript" }) {
+        // in every other project the rules are confined to src/: the file outside then has no applicable rule at all,
+        // and its only comment - a suppression that silences nothing - must still be reported as unused
+        let confined = (i / stride.max(1)) % 2 == 1;
+        for mut r in rules_json(if skin.python { "Python" } else if skin.c { "C" } else { "JavaScript" }) {
+          if confined {
+            r["files"] = json!(["src/**"]);
+          }
           p.rule(&format!("{}.yml", r["id"].as_str().unwrap()), &r);
         }
+        let ext = if skin.python { "py" } else if skin.c { "c" } else { "js" };
+        let outside = if skin.python { "# ast-grep-ignore\nn(0)\n" } else if skin.c { "void g() {\n  // ast-grep-ignore\n  n(0);\n}\n" } else { "// ast-grep-ignore\nn(0);\n" };
+        p.write(&format!("scripts/x.{ext}"), outside.as_bytes());
         p.write(if skin.python { "src/t.py" } else if skin.c { "src/t.c" } else { "src/t.js" }, src.as_bytes());
         let o = run_sgv(&["scan", "--json=stream"], &p.root, None, 20, &[]);
+        let outside_reports: Vec<Value> = json_lines(&o.stdout).iter().filter(|v| v["file"].as_str().unwrap_or("").contains("scripts/x."))
+          .map(|v| json!([v["ruleId"], v["range"]["start"]["line"]])).collect();
         let hits: Vec<(String, usize, usize)> = json_lines(&o.stdout)
           .iter()
+          .filter(|v| !v["file"].as_str().unwrap_or("").contains("scripts/x."))
           .map(|v| {
             (v["ruleId"].as_str().unwrap_or("").to_string(), v["range"]["start"]["line"].as_u64().unwrap_or(0) as usize,
              v["range"]["start"]["column"].as_u64().unwrap_or(0) as usize)
           })
           .collect();
         let (findings, unused) = classify(&src, &hits, off);
-        recs.push(json!({"id": format!("c14v{i}s{}", skin.id), "front": "cli", "layout": layout, "src": src, "skin": skin.id, "findings": findings, "unused": unused, "code": o.code}));
+        recs.push(json!({"id": format!("c14v{i}s{}", skin.id), "front": "cli", "layout": layout, "src": src, "skin": skin.id, "findings": findings, "unused": unused, "code": o.code,
+          "outside": {"checked": true, "reports": outside_reports, "line": if skin.c { 1 } else { 0 }, "confined": confined}}));
         p.remove();
       }
     }
